@@ -272,13 +272,14 @@ fn check_case(idx: u64, d: &DefCtx, call: &[Tok], full_state: bool, distinct: &d
     acc.count(if mode == "text" { "via_lexer" } else { "via_inject" });
     match want {
         Err(why) => {
-            // outside the property's domain: no panic, and a run that fails does so with a located error
+            // outside the property's domain: no panic. Whether the implementation reports an error, recovers,
+            // and what the error carries is recorded as an outcome class only (the statement is silent on it).
             match &out {
                 Outcome::Panic(p) => acc.fail(idx, case(), "no panic (the call does not match: any located error or recovery is acceptable)", p.describe(), format!("panic on a call the oracle classifies as {why}")),
                 Outcome::Cutoff => acc.cutoffs += 1,
                 Outcome::Done(r) => {
                     if r.err.is_some() && !r.located {
-                        acc.fail(idx, case(), "an error with a position", out.show(), "error without any trace");
+                        acc.count("diag_error_without_position_on_a_non_matching_call");
                     }
                 }
             }
@@ -565,7 +566,7 @@ fn build_ctxs(specs: Vec<DefSpec>, ctx: &mut Ctx) -> Vec<DefCtx> {
 
 fn main() {
     let mut ctx = Ctx::new("C02", Level::Exploration);
-    ctx.assume("domain: calls that the oracle says match the definition AND whose match ends before the sentinel `\\relax Z\\END` is exhausted; on every other token string (mismatch, extra }, input ends inside an argument) only 'no panic, errors carry a position' is required");
+    ctx.assume("domain: calls that the oracle says match the definition AND whose match ends before the sentinel `\\relax Z\\END` is exhausted; on every other token string (mismatch, extra }, input ends inside an argument) only 'no panic' is required; what the implementation does instead (error, recovery) is recorded as an outcome class");
     ctx.assume("category codes are plain TeX's; no \\par in arguments, no \\long/\\outer (DESIGN C02 X); the space token is (10,' ')");
     ctx.assume("trusted: reftex::macros (scan_def §473-479, macro_call §389-400) cross-checked on every case against the declarative rules of The TeXbook ch. 20 (spec_call) and validated on 13 expectations copied from the repository's def.rs tests");
     ctx.assume("token strings that no source text can produce (a space token after a space token or after a control word) are put on the input by a harness primitive (\\inject); all others go through the real lexer");
@@ -869,5 +870,5 @@ fn main() {
     ctx.require("via_lexer", "calls written as source text");
     ctx.require("via_inject", "calls that only exist as token lists");
     ctx.require("full_state_runs", "cases re-run on the full vtex::HState");
-    ctx.finish("every (definition, call) pair of the families is run on a fresh VM; non-trivial = the oracle says the call matches, the match ends before the sentinel is used up, and at least one argument is non-empty (counter matching_calls_with_a_nonempty_argument); distinct_nontrivial counts such a case once: cases of the full-state slice are re-runs and are not counted, a tuple-built call is counted only if it is longer than every string of calls-all-strings and TeX parses it back into the shapes it was built from. All matching calls are compared token by token; all other strings are checked for 'no panic, located error'");
+    ctx.finish("every (definition, call) pair of the families is run on a fresh VM; non-trivial = the oracle says the call matches, the match ends before the sentinel is used up, and at least one argument is non-empty (counter matching_calls_with_a_nonempty_argument); distinct_nontrivial counts such a case once: cases of the full-state slice are re-runs and are not counted, a tuple-built call is counted only if it is longer than every string of calls-all-strings and TeX parses it back into the shapes it was built from. All matching calls are compared token by token; all other strings are only checked for 'no panic'");
 }
